@@ -57,7 +57,7 @@ func (g *generator) buildDirtyMethods() error {
 			continue
 		}
 		genMethod.Dirty = false
-		err := g.buildMethod(genMethod, genMethod.Context)
+		err := g.buildMethod(genMethod, g.availableContext(genMethod))
 		if err != nil {
 			err = err.Lift(&builder.Path{
 				SourceID:   "source",
@@ -71,6 +71,16 @@ func (g *generator) buildDirtyMethods() error {
 	return nil
 }
 
+// availableContext returns the context arguments a method can be given: its own
+// for a declared method, the ones of the declared method it was created for
+// otherwise (the same a generated method sees when it is built the first time).
+func (g *generator) availableContext(m *generatedMethod) map[string]*xtype.Type {
+	if len(m.OriginPath) > 0 {
+		return g.lookup.ByID(m.OriginPath[len(m.OriginPath)-1]).Context
+	}
+	return m.Context
+}
+
 func (g *generator) anyDirty() bool {
 	for _, m := range g.getGenMethods() {
 		if m.Dirty {
@@ -78,6 +88,16 @@ func (g *generator) anyDirty() bool {
 		}
 	}
 	return false
+}
+
+// signatureChanged schedules every method for regeneration. Calls are resolved
+// by a signature lookup, so any already built method may contain a call to the
+// method whose signature (error result, context arguments) just changed, not
+// only the methods it was created from.
+func (g *generator) signatureChanged() {
+	for _, m := range g.getGenMethods() {
+		m.Dirty = true
+	}
 }
 
 func (g *generator) appendGenerated(f *jen.File) {
@@ -337,6 +357,7 @@ func (g *generator) ReturnError(ctx *builder.MethodContext, errPath builder.Erro
 			if !check.ReturnError {
 				check.ReturnError = true
 				check.Dirty = true
+				g.signatureChanged()
 			}
 		}
 	}
@@ -372,6 +393,7 @@ func (g *generator) requireContext(ctx *builder.MethodContext, need *xtype.Type)
 			Type: need,
 		})
 		check.Dirty = true
+		g.signatureChanged()
 	}
 	return true
 }
